@@ -30,21 +30,24 @@ Theorem C09_unwrap_wrap : forall (line : text) (rest : list text) (fuel : nat),
 Proof. exact unwrap_wrap. Qed.
 Print Assumptions C09_unwrap_wrap.
 
-Theorem C09_tokenize_lines_write : forall contents : list text,
+(* the reader sets the first four lines aside and splices the rest *)
+Theorem C09_tokenize_lines_write : forall (hdr contents : list text),
+  length hdr = 4 ->
   Forall (fun l => ends_with_char 45%N l = false) contents ->
-  tokenize_lines (flat_map v30_line contents) = ok (map (fun l => tokenize (prefix ++ l)) contents).
+  tokenize_lines (hdr ++ flat_map v30_line contents)
+  = ok (map tokenize hdr ++ map (fun l => tokenize (prefix ++ l)) contents).
 Proof. exact tokenize_lines_write. Qed.
 Print Assumptions C09_tokenize_lines_write.
 
-(* the whole written file, for every molecule: the splice loop returns the unwrapped file *)
+(* the whole written file, for every molecule and every header: the splice loop run on the
+   lines after the header returns them unwrapped *)
 Theorem C09_concat_dash_write_lines : forall (line2 : text) (m : mol rpay (option Z)) (fuel : nat),
-  continues line2 = false -> length (write_lines line2 m) <= fuel ->
-  concat_dash fuel (write_lines line2 m) = ok (logical_lines line2 m).
+  length (skipn 4 (write_lines line2 m)) <= fuel ->
+  concat_dash fuel (skipn 4 (write_lines line2 m)) = ok (skipn 4 (logical_lines line2 m)).
 Proof. exact concat_dash_write_lines. Qed.
 Print Assumptions C09_concat_dash_write_lines.
 
 Theorem C09_tokenize_lines_write_lines : forall (line2 : text) (m : mol rpay (option Z)),
-  continues line2 = false ->
   tokenize_lines (write_lines line2 m) = ok (map tokenize (logical_lines line2 m)).
 Proof. exact tokenize_lines_write_lines. Qed.
 Print Assumptions C09_tokenize_lines_write_lines.
@@ -72,7 +75,7 @@ Print Assumptions C09_tokenize_bond_line.
       symbols are in the element table, whose coordinate tokens float() accepts, whose node
       names are distinct and whose bonds are listed once between existing nodes *)
 Theorem C09_write_read_roundtrip : forall (line2 : text) (m : mol rpay (option Z)),
-  continues line2 = false -> mol_ok m ->
+  mol_ok m ->
   read_v3000 (write_lines line2 m) = ok (map expected_atom (atoms m), map expected_bond (bonds m)).
 Proof. exact write_read_roundtrip. Qed.
 Print Assumptions C09_write_read_roundtrip.
@@ -91,7 +94,7 @@ Proof. exact write_molfile_line_length. Qed.
 Print Assumptions C09_write_molfile_line_length.
 
 Theorem C09_read_molfile_write_molfile : forall (line2 : text) (m : mol rpay (option Z)),
-  nolb line2 -> continues line2 = false -> mol_ok m ->
+  nolb line2 -> mol_ok m ->
   V2000.read_molfile (write_molfile line2 m)
   = graph_from_molecule (map expected_atom (atoms m)) (map expected_bond (bonds m)).
 Proof. exact read_molfile_write_molfile. Qed.
